@@ -419,8 +419,9 @@ Proof. vm_compute. reflexivity. Qed.
                   - `doc[..] = table()` only directly under a table, never under an existing or auto-vivified
                     inline table (`iset_side`: class C06-table-in-inline);
                   - a table edited by insert-table / remove / a conversion / IndexMut stays at least as visible
-                    (`vis_side`: a dotted table keeps a key/value line, an implicit table keeps a line or a header
-                    below it), an array of tables keeps an element, a dotted inline table keeps an entry
+                    (`vis_side`: a table that had a key/value line of its own or a header written for or below it
+                    still has one of the two — a dotted table may trade its last line for a header below it,
+                    ex_side_line_for_header), an array of tables keeps an element, a dotted inline table keeps an entry
                     (class C08-empty-container-vanishes);
                   - make_value: no dotted inline table below the converted table (`mv_good`);
                   - no condition at all for insert of a value, the array operations, ArrayOfTables::push,
@@ -472,8 +473,9 @@ Print Assumptions C08_history_wf_text.
    inserted behind `[t]` is printed in front of it and parses back in front of it).  The closed statement is
    about the DATA (Spec/Syntax.v `dval`; kinds and the inline / dotted flags forgotten on both sides):
      data_of x     the data of a plain tree in storage order          C08_bridge_parsed:  = tree_dval (abs_doc d)
-     text_data x   the same, each standard table key/value lines first, empty arrays of tables / placeholders
-                   dropped                                            C08_bridge_printed: = tree_dval (abs_doc_of t)
+     text_data x   the same, each standard table key/value lines first (a table made of dotted keys counts as a
+                   line while a line is left in it, as a section once it is only mentioned by the headers below it),
+                   empty arrays of tables / placeholders dropped      C08_bridge_printed: = tree_dval (abs_doc_of t)
    and `lines_first x` decides that the two coincide (C08_lines_first). *)
 From TV Require Import Spec.Defs Spec.Syntax Proofs.GrammarBase Proofs.WFTree Proofs.WFReparse Proofs.WFParseTop Proofs.WFReplay Proofs.EditTextClose.
 
@@ -637,6 +639,38 @@ Example ex_roundtrip_exact_order :
        (fun r r' => lines_first (abs r') && data_eqb (data_of (abs r)) (data_of (abs r')))
   = true.
 Proof. vm_compute. reflexivity. Qed.
+
+(* a dotted table trades its last key/value line for a header below it: Table::insert("b", table()) at `a` on `a.b = 1`
+   (and the same below a header, between two other lines).  Spec/WF.v used to ask every table made of dotted keys for a
+   line of its own, and `vis_side` refused the step (its old form is recomputed here); now the step meets its side
+   conditions, the result is well-formed, prints `[a.b]` — `a` is a super-table of that header in the text —, and the
+   text parses back to the edited data, the line-less dotted table listed among the sections *)
+Definition old_vis_side (a b : tbl) : bool := implb (hl a) (hl b) && implb (ph a) (ph b || hl b).
+Example ex_side_line_for_header :
+  let ops := [OInsertTable [SKey (str "a")] (str "b")] in
+  on_root (str "a.b = 1
+") (fun r => match r, apply_seq ops r with
+             | Tbl [(_, ITable a)] _ _ _ _ _, Some ((Tbl [(_, ITable b)] _ _ _ _ _) as r') =>
+               negb (old_vis_side a b) && vis_side a b && negb (has_line b) && prints_header b
+               && history_side ops r && wf_b r'
+             | _, _ => false
+             end) false
+  && reparse_cmp (str "a.b = 1
+") ops (fun r r' => data_eqb (data_of (abs r)) (text_data (abs r')))
+  && on_root (str "[t]
+x = 1
+a.b = 1
+y = 2
+") (history_side [OInsertTable [SKey (str "t"); SKey (str "a")] (str "b")]) false
+  && reparse_cmp (str "[t]
+x = 1
+a.b = 1
+y = 2
+") [OInsertTable [SKey (str "t"); SKey (str "a")] (str "b")]
+       (fun r r' => data_eqb (data_of (abs r)) (text_data (abs r')) && negb (data_eqb (data_of (abs r)) (data_of (abs r'))))
+  = true.
+Proof. vm_compute. reflexivity. Qed.
+
 
 (* interleaved sections (`[a]`, `[b]`, `[a.c]`): order_ok fails, the replay check of the edited tree holds *)
 Definition ex_ops2 : list op := [OInsert [SKey (str "a")] (str "z") (PVInt 3); OInsertTable [] (str "n")].
